@@ -33,6 +33,8 @@ pub(crate) mod leaf;
 mod leaf;
 mod leaf_cache;
 #[cfg(nomt_verif)]
+pub(crate) use leaf_cache::verif as leaf_cache_verif;
+#[cfg(nomt_verif)]
 pub(crate) mod ops;
 #[cfg(not(nomt_verif))]
 mod ops;
@@ -683,6 +685,8 @@ impl AsyncLeafLoad {
     fn finish_inner(&self, page: FatPage) -> Arc<leaf::node::LeafNode> {
         let leaf_node = Arc::new(leaf::node::LeafNode { inner: page });
 
+        #[cfg(nomt_verif)]
+        leaf_cache_verif::observe_insert(&self.read_tx.leaf_cache, self.page_number, &leaf_node);
         self.read_tx
             .leaf_cache
             .insert(self.page_number, leaf_node.clone());
